@@ -26,6 +26,9 @@ func check(prop, tier, only string, jobs int) int {
 	os.Setenv("VERIF_TIER", tier)
 	thorough := tier == "thorough"
 	evidencePath := filepath.Join(verifDir, "evidence", prop+".json")
+	if d := os.Getenv("VERIF_EVIDENCE_DIR"); d != "" {
+		evidencePath = filepath.Join(d, prop+".json") // development runs must not clobber the committed evidence
+	}
 	os.MkdirAll(filepath.Dir(evidencePath), 0o755)
 	inconclusive := func(msg string) int {
 		fmt.Printf("INCONCLUSIVE property=%s %s\n", prop, msg)
